@@ -14,14 +14,15 @@ Fixpoint syn (e : expr) : bool :=
   | ELit _ => false
   | EVar _ => true
   | EBin _ a b => syn a && syn b
+  | ERed a => syn a
   | _ => false
   end.
 
-Definition nostr (v : val) : bool := match v with VStr _ => false | _ => true end.
+Definition nostr (v : val) : bool := match v with VStr _ => false | VList [] => false | _ => true end.   (* what a re-checked operand can be *)
 
 Lemma admissible_syn e s : admissible e s = true -> syn e = true.
 Proof.
-  induction e as [v|n|o a IHa b IHb|a IHa|n e IHe]; cbn; intros H; try discriminate; auto.
+  induction e as [v|n|o a IHa b IHb|a IHa|a IHa|n e IHe]; cbn; intros H; try discriminate; auto.
   apply andb_true_iff in H. destruct H. rewrite IHa, IHb; auto.
 Qed.
 
@@ -31,14 +32,20 @@ Proof.
   destruct (has_var e); [|discriminate]. intros H; inversion H; subst. split; [reflexivity|]. eapply admissible_syn; eauto.
 Qed.
 
-Lemma arith_nostr o a b v : arith o a b = Some v -> nostr v = true.
+Lemma zip_with_nonempty f x xs y ys : zip_with f (x :: xs) (y :: ys) <> [].
+Proof. cbn. discriminate. Qed.
+
+Lemma arith_nostr o a b v : nostr a = true -> nostr b = true -> arith o a b = Some v -> nostr v = true.
 Proof.
-  destruct a, b; cbn; intros H; try discriminate; try (inversion H; reflexivity).
-  destruct (length l =? length l0)%nat; inversion H; reflexivity.
+  destruct a as [x|sa|[|x la]], b as [y|sb|[|y lb]]; cbn; intros Ha Hb H; try discriminate; try (inversion H; reflexivity).
+  destruct (length la =? length lb)%nat; inversion H; reflexivity.
 Qed.
 
 Lemma py_bin_nostr o a b : nostr a = true -> nostr b = true -> py_bin o a b = arith o a b.
-Proof. destruct o, a, b; cbn; intros; try discriminate; reflexivity. Qed.
+Proof. destruct o, a as [x|sa|[|x la]], b as [y|sb|[|y lb]]; cbn; intros; try discriminate; reflexivity. Qed.
+
+Lemma red_agree v : nostr v = true -> exists z, py_red v = Some (VInt z) /\ kl_red v = VInt z.
+Proof. destruct v as [x|sa|[|x la]]; cbn; intros H; try discriminate; eexists; split; reflexivity. Qed.
 
 (* D5 on this fragment: with re-checked operands, compiled code that returns returns what the
    interpreter returns, and changes nothing *)
@@ -46,17 +53,20 @@ Lemma compiled_sound c : forall s v,
   syn c = true -> operands_ok c s = true -> py_run c s = Some v ->
   nostr v = true /\ eval_pure c s = (Ok v, s).
 Proof.
-  induction c as [v0|n|o a IHa b IHb|a IHa|n e IHe]; intros s v Hs Ho Hp; cbn in *; try discriminate.
+  induction c as [v0|n|o a IHa b IHb|a IHa|a IHa|n e IHe]; intros s v Hs Ho Hp; cbn in *; try discriminate.
   - destruct v0; try discriminate. inversion Hp; subst. split; reflexivity.
-  - rewrite Hp. destruct v as [z|str|l]; [split; reflexivity| |split; reflexivity].
-    rewrite Hp in Ho. discriminate.
+  - rewrite Hp. rewrite Hp in Ho. destruct v as [z|str|[|x l]]; try discriminate; split; reflexivity.
   - apply andb_true_iff in Hs. destruct Hs as [Hsa Hsb].
     apply andb_true_iff in Ho. destruct Ho as [Hoa Hob].
     destruct (py_run a s) as [va|] eqn:Ea; [|discriminate].
     destruct (py_run b s) as [vb|] eqn:Eb; [|discriminate].
     destruct (IHa _ _ Hsa Hoa Ea) as [Na Pa]. destruct (IHb _ _ Hsb Hob Eb) as [Nb Pb].
     rewrite Pb, Pa. rewrite py_bin_nostr in Hp by assumption.
-    unfold kl_bin. rewrite Hp. split; [eapply arith_nostr; eauto|reflexivity].
+    unfold kl_bin. rewrite Hp. split; [exact (arith_nostr o va vb v Na Nb Hp)|reflexivity].
+  - destruct (py_run a s) as [va|] eqn:Ea; [|discriminate].
+    destruct (IHa _ _ Hs Ho Ea) as [Na Pa]. rewrite Pa.
+    destruct (red_agree va Na) as (z & Hpy & Hkl). rewrite Hpy in Hp. inversion Hp; subst.
+    rewrite Hkl. split; reflexivity.
 Qed.
 
 Fixpoint subexpr (e : expr) (p : path) {struct p} : option expr :=
@@ -67,6 +77,7 @@ Fixpoint subexpr (e : expr) (p : path) {struct p} : option expr :=
       | EBin _ a _, O => subexpr a p'
       | EBin _ _ b, S O => subexpr b p'
       | ESize a, O => subexpr a p'
+      | ERed a, O => subexpr a p'
       | EDef _ e1, S O => subexpr e1 p'
       | _, _ => None
       end
@@ -122,7 +133,7 @@ Section A.
     wf (snd r) /\ cur (snd r) = cur st /\ pcache (snd r) = pcache st /\
     (fst r, vars (snd r)) = eval_pure e (vars st).
   Proof.
-    induction e as [v|n|o a IHa b IHb|a IHa|n e IHe]; intros root p st W Hp; cbn zeta.
+    induction e as [v|n|o a IHa b IHb|a IHa|a IHa|n e IHe]; intros root p st W Hp; cbn zeta.
     - cbn. split; [exact W|repeat split; reflexivity].
     - cbn. destruct (slookup n (vars st)); cbn; (split; [exact W|repeat split; reflexivity]).
     - (* EBin *)
@@ -197,6 +208,52 @@ Section A.
       destruct (ev true clear_on_set k false (p ++ [0%nat]) a st) as [ra st1]. cbn [fst snd] in *.
       destruct (eval_pure a (vars st)) as [ra' s1]. inversion Ea; subst ra' s1.
       destruct ra; cbn; (split; [exact Wa|repeat split; assumption]).
+    - (* ERed *)
+      cbn [ev eval_pure].
+      assert (Hint : forall st', wf st' -> vars st' = vars st -> cur st' = cur st -> pcache st' = pcache st ->
+                 let r := (let (ra, st1) := ev true clear_on_set k false (p ++ [0%nat]) a st' in
+                           match ra with Err => (Err, st1) | Ok va => (Ok (kl_red va), st1) end) in
+                 wf (snd r) /\ cur (snd r) = cur st /\ pcache (snd r) = pcache st /\ (fst r, vars (snd r)) =
+                   (let (ra, s1) := eval_pure a (vars st) in
+                    match ra with Err => (Err, s1) | Ok va => (Ok (kl_red va), s1) end)).
+      { intros st' W' Hv Hc Hpc. cbn zeta.
+        assert (Ha : subexpr (tree_of k) (p ++ [0%nat]) = Some a) by (rewrite (subexpr_app _ _ _ _ Hp); reflexivity).
+        destruct (IHa false _ st' W' Ha) as (Wa & Ca & Pa & Ea). cbn zeta in *. rewrite Hv in Ea.
+        destruct (ev true clear_on_set k false (p ++ [0%nat]) a st') as [ra st1]. cbn [fst snd] in *.
+        destruct (eval_pure a (vars st)) as [ra' s1]. inversion Ea; subst ra' s1.
+        destruct ra; cbn; (split; [exact Wa|repeat split; congruence]). }
+      set (cs := if root then (compile (ERed a) (vars st), st)
+                 else match mlookup (k, p) (memo st) with
+                      | Some c => (c, st)
+                      | None => (compile (ERed a) (vars st),
+                                 mk_istate (vars st) (cur st) (pcache st) (ccache st) (((k, p), compile (ERed a) (vars st)) :: memo st))
+                      end).
+      assert (Hcs : wf (snd cs) /\ vars (snd cs) = vars st /\ cur (snd cs) = cur st /\ pcache (snd cs) = pcache st /\
+                    forall c, fst cs = Some c -> c = ERed a /\ syn c = true).
+      { unfold cs. destruct root.
+        - cbn. split; [exact W|]. split; [reflexivity|]. split; [reflexivity|]. split; [reflexivity|]. intros c Hc. apply compile_some in Hc. exact Hc.
+        - destruct (mlookup (k, p) (memo st)) as [c0|] eqn:EM.
+          + cbn. split; [exact W|]. split; [reflexivity|]. split; [reflexivity|]. split; [reflexivity|]. intros c Hc. subst c0.
+            destruct W as (_ & _ & W2). destruct (W2 _ _ _ EM) as [Hs Hy]. rewrite Hp in Hs. inversion Hs; subst. split; [reflexivity|exact Hy].
+          + cbn. split; [|split; [reflexivity|split; [reflexivity|split; [reflexivity|intros c Hc; apply compile_some in Hc; exact Hc]]]].
+            destruct W as (W0 & W1 & W2). split; [exact W0|]. split; cbn; [exact W1|].
+            intros k' p' c Hl. cbn [mlookup] in Hl.
+            destruct (key_eqb (k', p') (k, p)) eqn:EK.
+            * apply key_eqb_eq in EK. inversion EK; subst. assert (Hc : compile (ERed a) (vars st) = Some c) by congruence.
+              apply compile_some in Hc. destruct Hc as [-> Hy]. split; [exact Hp|exact Hy].
+            * apply W2. exact Hl. }
+      destruct cs as [code st'] eqn:Ecs. cbn [fst snd] in Hcs. destruct Hcs as (W' & Hv & Hcu & Hpc & Hc).
+      destruct code as [c|].
+      + destruct (Hc c eq_refl) as [-> Hy].
+        unfold try_compiled. cbn [andb].
+        destruct (operands_ok (ERed a) (vars st')) eqn:EO; cbn [negb].
+        * destruct (py_run (ERed a) (vars st')) as [v|] eqn:EP.
+          -- cbn [fst snd]. split; [exact W'|]. split; [exact Hcu|]. split; [exact Hpc|].
+             destruct (compiled_sound _ _ _ Hy EO EP) as [_ Hpure]. rewrite Hv in Hpure.
+             cbn [eval_pure] in Hpure. rewrite Hpure, Hv. reflexivity.
+          -- apply Hint; assumption.
+        * apply Hint; assumption.
+      + apply Hint; assumption.
     - (* EDef *)
       cbn [ev eval_pure].
       assert (He : subexpr (tree_of k) (p ++ [1%nat]) = Some e) by (rewrite (subexpr_app _ _ _ _ Hp); reflexivity).
@@ -432,3 +489,150 @@ Lemma buffers_immutable p st l :
 Proof.
   intros OK Hl. destruct (exec_all_inv p st OK) as (_ & X & _). apply extends_hget; assumption.
 Qed.
+
+(* ================================================================== *)
+(* Part B, simulation: the heap program computes what the program over immutable lists computes *)
+
+Lemma rv_length b : forall n o s, length (read_view b o s n) = n.
+Proof. induction n as [|n IH]; intros o s; cbn [read_view length]; [reflexivity|]. rewrite IH. reflexivity. Qed.
+
+Lemma rv_drop b s : forall k n o, (k <= n)%nat ->
+  read_view b (o + Z.of_nat k * s) s (n - k) = skipn k (read_view b o s n).
+Proof.
+  induction k as [|k IH]; intros n o H.
+  - cbn [Z.of_nat skipn]. rewrite Nat.sub_0_r. f_equal. lia.
+  - destruct n as [|n]; [lia|]. cbn [read_view skipn]. replace (S n - S k)%nat with (n - k)%nat by lia.
+    rewrite <- IH by lia. f_equal. lia.
+Qed.
+
+Lemma rv_take b s : forall k n o, read_view b o s (Nat.min k n) = firstn k (read_view b o s n).
+Proof.
+  induction k as [|k IH]; intros n o; [reflexivity|].
+  destruct n as [|n]; [reflexivity|]. cbn [Nat.min read_view firstn]. rewrite IH. reflexivity.
+Qed.
+
+Lemma rv_snoc b s : forall n o,
+  read_view b o s (S n) = read_view b o s n ++ [nth (Z.to_nat (o + Z.of_nat n * s)) b 0].
+Proof.
+  induction n as [|n IH]; intros o.
+  - cbn. do 2 f_equal. lia.
+  - change (read_view b o s (S (S n))) with (nth (Z.to_nat o) b 0 :: read_view b (o + s) s (S n)).
+    rewrite IH. cbn [read_view app]. do 4 f_equal. lia.
+Qed.
+
+Lemma rv_rev b s : forall n o,
+  read_view b (o + (Z.of_nat n - 1) * s) (- s) n = rev (read_view b o s n).
+Proof.
+  induction n as [|n IH]; intros o; [reflexivity|].
+  rewrite (rv_snoc b s n o), rev_app_distr. cbn [rev app].
+  change (read_view b (o + (Z.of_nat (S n) - 1) * s) (- s) (S n))
+    with (nth (Z.to_nat (o + (Z.of_nat (S n) - 1) * s)) b 0
+          :: read_view b (o + (Z.of_nat (S n) - 1) * s + - s) (- s) n).
+  replace (o + (Z.of_nat (S n) - 1) * s + - s) with (o + (Z.of_nat n - 1) * s) by lia.
+  rewrite IH. do 3 f_equal. lia.
+Qed.
+
+Lemma rv_id : forall b, read_view b 0 1 (length b) = b.
+Proof.
+  intros b. assert (H : forall k, (k <= length b)%nat -> read_view b (Z.of_nat k) 1 (length b - k) = skipn k b).
+  { intros k. remember (length b - k)%nat as m eqn:Em. revert k Em.
+    induction m as [|m IH]; intros k Em Hk.
+    - cbn. symmetry. apply skipn_all2. lia.
+    - cbn [read_view]. rewrite Nat2Z.id.
+      replace (Z.of_nat k + 1) with (Z.of_nat (S k)) by lia. rewrite IH by lia.
+      assert (Hlt : (k < length b)%nat) by lia.
+      clear - Hlt. revert k Hlt. induction b as [|x b IHb]; intros k Hlt; [cbn in Hlt; lia|].
+      destruct k as [|k]; [reflexivity|]. cbn [nth skipn]. apply IHb. cbn in Hlt. lia. }
+  specialize (H 0%nat ltac:(lia)). rewrite Nat.sub_0_r in H. exact H.
+Qed.
+
+Lemma list_set_length l : forall i v, length (list_set l i v) = length l.
+Proof. induction l as [|x l IH]; intros [|i] v; cbn; auto. Qed.
+
+Lemma pget_pset_same k v s : pget k (pset k v s) = Some v.
+Proof.
+  induction s as [|[k' v'] r IH]; cbn [pset pget].
+  - rewrite Z.eqb_refl. reflexivity.
+  - destruct (Z.eqb_spec k k') as [->|Hne]; cbn [pget].
+    + rewrite Z.eqb_refl. reflexivity.
+    + destruct (Z.eqb_spec k k'); [contradiction|]. exact IH.
+Qed.
+
+Lemma pget_pset_other k v s u : u <> k -> pget u (pset k v s) = pget u s.
+Proof.
+  intros Hne. induction s as [|[k' v'] r IH]; cbn [pset pget].
+  - destruct (Z.eqb_spec u k); [contradiction|reflexivity].
+  - destruct (Z.eqb_spec k k') as [->|Hkk]; cbn [pget].
+    + destruct (Z.eqb_spec u k'); [contradiction|reflexivity].
+    + destruct (Z.eqb_spec u k'); [reflexivity|exact IH].
+Qed.
+
+(* the value a view operation / a cloning amend produces is the pure operation on the operand's value *)
+Lemma apply_aop_value o h a h' a' :
+  apply_aop true o h a = (h', a') -> (a_loc a < length h)%nat ->
+  deref h' a' = pure_aop o (deref h a).
+Proof.
+  destruct o; cbn [apply_aop pure_aop]; intros H Hl.
+  - inversion H; subst. unfold deref; cbn [a_loc a_off a_step a_len].
+    rewrite rv_drop by apply Nat.le_min_r.
+    rewrite <- (rv_length (hget h' (a_loc a)) (a_len a) (a_off a) (a_step a)) at 1.
+    set (l := read_view (hget h' (a_loc a)) (a_off a) (a_step a) (a_len a)).
+    destruct (Nat.le_gt_cases n (length l)).
+    + rewrite Nat.min_l by assumption. reflexivity.
+    + rewrite Nat.min_r by lia. rewrite !skipn_all2 by lia. reflexivity.
+  - inversion H; subst. unfold deref; cbn [a_loc a_off a_step a_len]. apply rv_take.
+  - inversion H; subst. unfold deref; cbn [a_loc a_off a_step a_len]. apply rv_rev.
+  - unfold alloc in H. rewrite hset_last in H. inversion H; subst.
+    unfold deref at 1; cbn [a_loc a_off a_step a_len]. unfold hget. rewrite app_nth2 by lia.
+    rewrite Nat.sub_diag. cbn [nth].
+    rewrite <- (rv_length (hget h (a_loc a)) (a_len a) (a_off a) (a_step a)).
+    fold (deref h a). rewrite <- (list_set_length (deref h a) i v). apply rv_id.
+Qed.
+
+Definition sim (st : hstate) (ps : pstore) : Prop :=
+  env_ok st /\ forall k, value_of st k = pget k ps.
+
+Lemma sim_step st ps s : sim st ps -> sim (exec true st s) (pure_exec ps s).
+Proof.
+  intros [OK V]. destruct (exec_step st s OK) as (OK' & X & E). cbn zeta in *.
+  split; [exact OK'|].
+  assert (Hother : forall k, k <> target s -> value_of (exec true st s) k = value_of st k).
+  { intros k Hk. unfold value_of. rewrite (E k Hk). destruct (elookup k (env st)) as [a|] eqn:EL; [|reflexivity].
+    unfold deref. rewrite (extends_hget _ _ _ X (OK _ _ EL)). reflexivity. }
+  destruct s as [d l|d o src|d src]; cbn [exec pure_exec target] in *.
+  - intros k. destruct (Z.eq_dec k d) as [->|Hne].
+    + rewrite pget_pset_same. unfold alloc, value_of. cbn [env hp]. rewrite elookup_eset_same.
+      unfold deref; cbn [a_loc a_off a_step a_len]. unfold hget. rewrite app_nth2 by lia. rewrite Nat.sub_diag. cbn [nth].
+      f_equal. apply rv_id.
+    + rewrite pget_pset_other by exact Hne. rewrite <- V. apply Hother. exact Hne.
+  - pose proof (V src) as Vs. unfold value_of in Vs.
+    destruct (elookup src (env st)) as [a|] eqn:EL.
+    + rewrite <- Vs. destruct (apply_aop true o (hp st) a) as [h1 a1] eqn:EA. intros k.
+      destruct (Z.eq_dec k d) as [->|Hne].
+      * rewrite pget_pset_same. unfold value_of. cbn [env hp]. rewrite elookup_eset_same. f_equal.
+        eapply apply_aop_value; eauto.
+      * rewrite pget_pset_other by exact Hne. rewrite <- V.
+        exact (Hother k Hne).
+    + rewrite <- Vs. exact V.
+  - pose proof (V src) as Vs. unfold value_of in Vs.
+    destruct (elookup src (env st)) as [a|] eqn:EL.
+    + rewrite <- Vs. intros k. destruct (Z.eq_dec k d) as [->|Hne].
+      * rewrite pget_pset_same. unfold value_of. cbn [env hp]. rewrite elookup_eset_same. reflexivity.
+      * rewrite pget_pset_other by exact Hne. rewrite <- V. apply Hother. exact Hne.
+    + rewrite <- Vs. exact V.
+Qed.
+
+Lemma sim_all p : forall st ps, sim st ps -> sim (exec_all true st p) (pure_exec_all ps p).
+Proof.
+  unfold exec_all, pure_exec_all. induction p as [|s p IH]; intros st ps H; cbn [fold_left]; [exact H|].
+  apply IH. apply sim_step. exact H.
+Qed.
+
+Lemma sim_empty : sim (mk_hstate [] []) [].
+Proof. split; [intros k a H; discriminate|reflexivity]. Qed.
+
+(* values behave as immutable: after ANY statement sequence every variable holds the value the
+   same program computes over a store of immutable lists *)
+Lemma heap_is_immutable_store p k :
+  value_of (exec_all true (mk_hstate [] []) p) k = pget k (pure_exec_all [] p).
+Proof. exact (proj2 (sim_all p _ _ sim_empty) k). Qed.
